@@ -39,10 +39,23 @@ def generate(prop, seed, tier='quick', sub='crash'):
     opts = gen.make_opts(rng, len(pool))
     weights = dict(gen.BASE_WEIGHTS, reinit=0, reopen=0.3, plant_duplicate=0.6)
     pre_ops = gen.gen_history(rng, len(pool), rng.randint(2, 10), weights=weights, opts=opts, with_b=True)
-    kind = rng.choice(VICTIMS)
+    kind = rng.choice(VICTIMS + ['add_pack', 'pack_loose'])
     vopts = gen.make_opts(rng, len(pool))
     victim = gen.gen_op(rng, kind, len(pool), vopts)
     victim.pop('from_key', None)
+    if kind == 'add_pack':
+        # the direct-to-pack path has the most option-dependent branches: draw its options uniformly (no swarm
+        # restriction) and make "content already known, followed by new content" likely
+        victim.update(
+            no_holes=rng.random() < 0.6,
+            read_twice=rng.random() < 0.5,
+            compress=rng.random() < 0.5,
+            api=rng.choice(['objects', 'streams', 'single']),
+        )
+        used = [c for op in pre_ops for c in op.get('cs', [op['c']] if 'c' in op else []) if op.get('t', 'c') == 'c']
+        if used and rng.random() < 0.6:
+            fresh = [rng.randrange(len(pool)) for _ in range(rng.randint(1, 3))]
+            victim['cs'] = [rng.choice(used)] + fresh if rng.random() < 0.7 else fresh[:1] + [rng.choice(used)] + fresh[1:]
     if kind == 'add_loose':
         victim.setdefault('c', rng.randrange(len(pool)))
     if kind == 'loosen':
@@ -55,6 +68,16 @@ def generate(prop, seed, tier='quick', sub='crash'):
     if kind in ('add_pack', 'import') and rng.random() < 0.5:
         config['pack_size_target'] = rng.choice([1, 50, 500])
     thorough = tier == 'thorough'
+    pending = None
+    if sub != 'fault' and rng.random() < 0.15:
+        # the victim's handle holds index rows written with do_commit=False (still uncommitted); prefer contents that
+        # are already stored (loose) - they must survive whatever the victim and the crash do
+        loose_cs = [op['c'] for op in pre_ops if op['op'] == 'add_loose' and 'c' in op and op.get('t', 'c') == 'c']
+        pcs = [rng.choice(loose_cs) if loose_cs and rng.random() < 0.7 else rng.randrange(len(pool)) for _ in range(rng.randint(1, 4))]
+        pending = {'cs': pcs, 'compress': rng.random() < 0.4}
+        if rng.random() < 0.5:
+            victim = {'op': 'clean', 'vacuum': False}
+            kind = 'clean'
     return {
         'engine': 'B',
         'prop': prop,
@@ -70,6 +93,10 @@ def generate(prop, seed, tier='quick', sub='crash'):
         'positions': 'all' if thorough else 'sample',
         'nsample': 16 if sub != 'fault' else 24,
         'fresh_handle': rng.random() < 0.4,
+        # C06 variant: the n-th fsync of the victim fails
+        'fsync_fault': rng.randint(1, 4) if sub == 'powerloss' and rng.random() < 0.25 else None,
+        # the victim's handle holds index rows written with do_commit=False (still uncommitted)
+        'pending_add': pending,
     }
 
 
@@ -363,8 +390,19 @@ def execute(case):  # pylint: disable=too-many-locals,too-many-branches,too-many
                     victim['concrete_key'] = world.model_key(side, victim.get('key', 0))
                 case = dict(case, victim=victim)
                 pre, maybe = expectations(world, side, victim)
-                if case.get('fresh_handle') or sub == 'fault':
+                if (case.get('fresh_handle') and not case.get('pending_add')) or sub == 'fault':
                     world.op_reopen(side, {})
+                if case.get('pending_add') and sub != 'fault':
+                    # the handle that runs the victim has objects written with the documented do_commit=False option:
+                    # their index rows are pending in its session. Contents that were stored before must survive
+                    # whatever the victim and the crash do; the new ones may or may not become visible.
+                    datas = [world.content(c) for c in case['pending_add']['cs']]
+                    with SIM.quiet():
+                        side.handles[0].add_objects_to_pack(datas, compress=bool(case['pending_add'].get('compress')), do_commit=False)
+                    for data in datas:
+                        key = hkey(side.hash_type, data)
+                        if key not in pre and not (victim['op'] == 'delete' and key in maybe):
+                            maybe[key] = data
                 if sub in ('crash', 'powerloss'):
                     evals, behaviours = run_recorded(lib, world, side, case, pre, maybe, rng, probes, faults)
                 else:
@@ -404,13 +442,20 @@ def execute(case):  # pylint: disable=too-many-locals,too-many-branches,too-many
     return result
 
 
-def pick_positions(case, total, rng, nsample):
+def pick_positions(case, total, rng, nsample, kinds=None):
     pinned = case.get('positions')
     if isinstance(pinned, list):
         return [p for p in pinned if p < total]
     if pinned == 'all' or total <= nsample:
         return list(range(total))
     picks = {0, total - 1}
+    if kinds:
+        # stratified: at least one boundary per distinct kind of call that follows it
+        by_kind = {}
+        for pos, kind in enumerate(kinds):
+            by_kind.setdefault(kind.split(':')[0] if kind.startswith('open') else kind, []).append(pos)
+        for kind in sorted(by_kind):
+            picks.add(rng.choice(by_kind[kind]))
     while len(picks) < nsample:
         picks.add(rng.randrange(total))
     return sorted(picks)
@@ -425,6 +470,20 @@ def run_recorded(lib, world, side, case, pre, maybe, rng, probes, faults):
     if powerloss:
         SIM.ledger = init_ledger(side.folder)
     SIM.hooks.append(recorder)
+    # C06 variant: the n-th fsync of the victim fails (EIO). "Visible only after its bytes have been forced to stable
+    # storage": if forcing fails, nothing may be published or removed on top of those bytes either.
+    sync_fault = {'n': case.get('fsync_fault'), 'seen': 0, 'fired': None}
+
+    def fail_fsync(event):
+        if sync_fault['n'] is None or event[2] not in ('os.fsync', 'fcntl'):
+            return None
+        sync_fault['seen'] += 1
+        if sync_fault['seen'] == sync_fault['n'] and not sync_fault['fired']:
+            sync_fault['fired'] = event[3]
+            raise OSError(errno.EIO, f'Input/output error (injected at fsync of {event[3]})')
+        return None
+
+    SIM.hooks.append(fail_fsync)
     raised = None
     try:
         world.step_index = len(case['ops'])
@@ -437,14 +496,18 @@ def run_recorded(lib, world, side, case, pre, maybe, rng, probes, faults):
         raised = exc
     finally:
         SIM.hooks.remove(recorder)
-    if raised is not None:
+        SIM.hooks.remove(fail_fsync)
+    if sync_fault['fired']:
+        faults['fsync-eio'] = faults.get('fsync-eio', 0) + 1
+        probes['fsync_fault_raised' if raised is not None else 'fsync_fault_swallowed'] = 1
+    if raised is not None and not sync_fault['fired']:
         # a fault-free victim must not raise
         raise Violation('unexpected-exception:' + type(raised).__name__, f'victim {victim["op"]}: {raised!r}\n{short_tb(raised)}'[:2000])
     # final image: after the victim returned (library buffers are flushed by then, but maybe not synced)
     recorder.take('end', '')
     total = len(recorder.images)
     probes['boundaries'] += total
-    picks = set(pick_positions(case, total, rng, case.get('nsample', 16)))
+    picks = set(pick_positions(case, total, rng, case.get("nsample", 16), kinds=[img[1] for img in recorder.images]))
     behaviours = set()
     evals = 0
     kind_name = 'powerloss' if powerloss else 'crash'
@@ -460,7 +523,8 @@ def run_recorded(lib, world, side, case, pre, maybe, rng, probes, faults):
             shutil.rmtree(path, ignore_errors=True)
     SIM.ledger = None
     # and the completed operation itself left a state equal to the model
-    final_state_check(world, side, f'after victim {victim["op"]}')
+    if raised is None and not case.get('pending_add'):
+        final_state_check(world, side, f'after victim {victim["op"]}')
     return evals, behaviours
 
 
@@ -512,8 +576,20 @@ def run_faulted(lib, world, side, case, pre, maybe, rng, probes, faults):  # pyl
     elif pinned == 'all' or len(candidates) <= case.get('nsample', 24):
         chosen = candidates
     else:
-        chosen = rng.sample(candidates, case.get('nsample', 24))
-        chosen.sort()
+        # stratified sample: every (call kind, fault kind) pair that occurs gets at least one position (a random one of
+        # its occurrences), so rare calls (truncate, link, replace, rename ...) are never drowned by reads and writes
+        by_pair = {}
+        for cand in candidates:
+            kshort = cand[2].split(':')[0] if cand[2].startswith('open') else cand[2]
+            by_pair.setdefault((kshort, cand[1]), []).append(cand)
+        picked = set()
+        for pair in sorted(by_pair):
+            occ = by_pair[pair]
+            picked.update(occ if len(occ) <= 3 else [rng.choice(occ)])  # rare calls: every occurrence
+        rest = [c for c in candidates if c not in picked]
+        extra = max(0, case.get('nsample', 24) - len(picked))
+        picked.update(rng.sample(rest, min(extra, len(rest))))
+        chosen = sorted(picked)
     behaviours = set()
     evals = 0
     repack = victim['op'] in ('repack', 'repack_pack')
